@@ -5,6 +5,7 @@ mod node;
 mod refmodel;
 mod rng;
 mod sim;
+mod storesim;
 mod world;
 
 use serde_json::Value;
@@ -88,6 +89,7 @@ fn main() {
 			let rp = &v["replay"];
 			let res = match rp["engine"].as_str() {
 				Some("chainsim") => checks::replay_chainsim(rp),
+				Some("storesim") => storesim::replay(rp),
 				other => Err(format!("unknown engine {:?}", other)),
 			};
 			node::cleanup_scratch_root();
